@@ -132,6 +132,17 @@ public:
                    , "Unexpected character in the raster of PNM file."
                    );
 
+        if( _info._type == pnm_image_type::mono_asc_t::value )
+        {
+            // every pixel of a plain PBM raster is a single character,
+            // white space between the pixels is optional
+            io_error_if( ch > '1'
+                       , "Unexpected character in the raster of PNM file."
+                       );
+
+            return static_cast< unsigned int >( ch - '0' );
+        }
+
         unsigned int val = 0;
 
         do
